@@ -197,6 +197,19 @@ StmtProds(h) ==
   \cup (IF "GDel" \in Stmts THEN {P(Nd("GDel", "n", <<>>, "", <<KeyK>>, <<>>), "", <<>>)} ELSE {})
   \cup (IF "Assert" \in Stmts THEN {P(Nd("Assert", "n", <<>>, "", <<>>, <<>>), "", <<U>>)} ELSE {})
   \cup (IF "Assert2" \in Stmts THEN {P(Nd("Assert", "n", <<>>, "", <<>>, <<>>), "", <<U, U>>)} ELSE {})
+  \* optimiser-shaped one-node statements on a uint64 variable v:
+  \*   SL: store immediately followed by the only nearby load   v := arg0 ; Log(Itob(v))
+  \*   Use: a load that is not adjacent to any store             Log(Itob(9 - v))
+  \*   Set: a plain store                                        v := 1
+  \cup (IF "OptMacros" \in Stmts
+        THEN {P(Nd("Seq", "n", <<>>, "", <<Nd("Store", "n", <<>>, "", <<ArgU(0)>>, <<v>>),
+                                         Nd("Log", "n", <<>>, "", <<Nd("Op", "b", <<>>, "itob", <<Nd("Load", "u", <<>>, "", <<>>, <<v>>)>>, <<>>)>>, <<>>)>>, <<>>),
+                "", <<>>) : v \in {x \in Vars : VarT(x) = "u"}}
+             \cup {P(Nd("Log", "n", <<>>, "", <<Nd("Op", "b", <<>>, "itob",
+                        <<Nd("Op", "u", <<>>, "-", <<IntN(<<9>>), Nd("Load", "u", <<>>, "", <<>>, <<v>>)>>, <<>>)>>, <<>>)>>, <<>>),
+                     "", <<>>) : v \in {x \in Vars : VarT(x) = "u"}}
+             \cup {P(Nd("Store", "n", <<>>, "", <<IntN(<<1>>)>>, <<v>>), "", <<>>) : v \in {x \in Vars : VarT(x) = "u"}}
+        ELSE {})
   \cup {P(LogCtr(d), "", <<>>) : d \in {x \in 1..cd : "LogC" \in Stmts}}
   \cup {P(Nd("If", "n", <<>>, "", <<CtrIs1(d), Nd("Continue", "n", <<>>, "", <<>>, <<>>)>>, <<>>), "", <<>>) :
           d \in {x \in 1..cd : "ContIf" \in Stmts /\ lp > 0}}
